@@ -9,6 +9,10 @@ from .origin import Origins
 T = "T"
 
 
+import sys as _sys
+NATIVE_ENDIAN = "le" if _sys.byteorder == "little" else "be"
+
+
 class BV:
     def __init__(self, bits, width=None):
         self.bits = list(bits)
@@ -304,9 +308,11 @@ class BitEval:
         if len(cands) == 1 and not cands[0].d.get("trait_def"):
             return self.call_fn(cands[0], args, depth + 1)
         # core integer byte (de)serialisers
-        if path.startswith("core::num::") and name in ("to_be_bytes", "to_le_bytes") and isinstance(args[0], BV) and args[0].width:
+        if path.startswith("core::num::") and name in ("to_be_bytes", "to_le_bytes", "to_ne_bytes") and isinstance(args[0], BV) and args[0].width:
             a = args[0]
             by = [BV(a.bits[8 * i:8 * i + 8], 8) for i in range(a.width // 8)]
+            if name == "to_ne_bytes":        # the facts are extracted by a host build: native order = the host's
+                name = "to_%s_bytes" % NATIVE_ENDIAN
             return Arr(by if name == "to_le_bytes" else list(reversed(by)))
         if name == "index" and len(args) == 2 and isinstance(args[0], Arr) and isinstance(args[1], Struct):
             lo, hi = args[1].fields.get(0), args[1].fields.get(1)
